@@ -332,7 +332,7 @@ PATIENCE_CLAUSES = ("handler-context-not-cancelled-at-connection-end", "cancella
                     "goroutines-retained-for-dead-connection")
 
 
-def run_ws_scenarios(run, wd, scen, tag, hooks=False, timeout=1800):
+def run_ws_scenarios(run, wd, scen, tag, hooks=False, timeout=1800, also_confirm=None):
     """Runs protocol scenarios against the real code and lets TLC (ObsTrace) evaluate every property predicate on the recorded
     events. Returns (trace, violations) with violations as [scenario, property, clause, call]."""
     import shutil
@@ -353,7 +353,7 @@ def run_ws_scenarios(run, wd, scen, tag, hooks=False, timeout=1800):
     # although the library did its part.  Such an observation is confirmed before it is reported: the scenario is run again on
     # its own three more times, and the clause is reported if it shows up again in any of them (a defect of this kind shows
     # up again: the thing never happens, or - if a race is involved - fails to happen often).
-    timed = [v for v in viol if any(str(v[2]).startswith(c) for c in PATIENCE_CLAUSES) and 0 < v[0] <= len(scen)]
+    timed = [v for v in viol if (any(str(v[2]).startswith(c) for c in PATIENCE_CLAUSES) or (also_confirm and also_confirm(v))) and 0 < v[0] <= len(scen)]
     if timed and not tag.endswith("confirm"):
         idx = [i for i in sorted({v[0] for v in timed}) for _ in range(3)]   # three more runs each: a racy defect gets its chances
         ctf = "trace_%sconfirm.ndjson" % tag
@@ -934,7 +934,10 @@ def c13(run, replay):
         for procs in (1, 0):
             scen.append({"sc": "c13.panic", "args": {"kind": "unary", "payload": payload, "transport": "ws", "siblings": True, "twice": True,
                                                      "procs": procs, "blockwriter": True}})
-    trace, viol = run_ws_scenarios(run, wd, scen, "c13", timeout=3000)
+    # what the siblings of a panicking call go through is judged at quiescence after bounded waits (a 6 MB response held back by
+    # the proxy, paced streams): on a starved machine those waits can run out, so sibling observations are confirmed by re-runs
+    trace, viol = run_ws_scenarios(run, wd, scen, "c13", timeout=3000,
+                                   also_confirm=lambda v: v[1] in ("C02", "C03", "C07", "C08") and v[2] != "process-crashed")
     report_ws(run, trace, viol, "C13", scen, "panic")
     for v in viol:   # siblings must behave as if the panic had not happened
         if v[1] in ("C02", "C03", "C07", "C08") and v[2] != "process-crashed":
